@@ -76,6 +76,7 @@ type VerifKeys struct {
 	mapb     *RedisMapBroker // nil when the constructor's rules reject the mode (cluster without sharding)
 	presence *RedisPresenceManager
 	node     *Node
+	mapOpts  *verifMapOpts
 	MapErr   string
 }
 
@@ -84,9 +85,9 @@ type VerifKeys struct {
 // goroutines that use the connection, so the value is assembled here from the same statements
 // (prefix default, FindTags, shardChannel/messagePrefix, the cluster/sharding validation).
 func VerifNewKeys(c VerifKeyConfig) (*VerifKeys, error) {
-	n, err := New(Config{Map: MapConfig{GetMapChannelOptions: func(string) MapChannelOptions {
-		return MapChannelOptions{Mode: MapModeRecoverable, KeyTTL: time.Minute, StreamSize: 10, StreamTTL: time.Minute}
-	}}})
+	mo := &verifMapOpts{}
+	mo.opts, _ = verifMapChannelOptions("recoverable", false)
+	n, err := New(Config{Map: MapConfig{GetMapChannelOptions: mo.get}})
 	if err != nil {
 		return nil, err
 	}
@@ -102,7 +103,7 @@ func VerifNewKeys(c VerifKeyConfig) (*VerifKeys, error) {
 	if err != nil {
 		return nil, fmt.Errorf("NewRedisPresenceManager: %w", err)
 	}
-	k := &VerifKeys{cfg: c, shard: shard, broker: b, presence: pm, node: n}
+	k := &VerifKeys{cfg: c, shard: shard, broker: b, presence: pm, node: n, mapOpts: mo}
 
 	// --- RedisMapBroker, mirroring NewRedisMapBroker (map_broker_redis.go) without the workers.
 	conf := RedisMapBrokerConfig{
@@ -156,6 +157,7 @@ func (k *VerifKeys) Keys(ch, idem string) map[string]string {
 	out["broker.historyListKey"] = string(b.historyListKey(s, ch))
 	out["broker.historyMetaKey"] = string(b.historyMetaKey(s, ch))
 	out["broker.resultCacheKey"] = string(b.resultCacheKey(s, ch, idem))
+	out["broker.resultCacheKeyNoIdem"] = string(b.resultCacheKey(s, ch, "")) // KEYS[3] of a history publish without idempotency key
 	if b.useShardedPubSub(s) {
 		idx := consistentIndex(ch, b.config.NumShardedPubSubPartitions)
 		out["broker.partitionIndex"] = fmt.Sprint(idx)
@@ -311,46 +313,154 @@ func (k *VerifKeys) capture(op string, clusterSlots bool, fn func()) VerifCaptur
 	return out
 }
 
-// CaptureOps runs the real per-channel operations of the three engines against the recording client
-// and returns the commands they built. With clusterSlots the builders behave like those of rueidis'
-// cluster client (cross-slot KEYS panic inside rueidis). cleanupScanKey is the key the cleanup worker
-// scans for this channel's partition (see CleanupScanKeys).
-func (k *VerifKeys) CaptureOps(ch, idem, cleanupScanKey string, clusterSlots bool) []VerifCaptured {
-	ctx := context.Background()
-	sw := k.broker.shards[0]
-	var out []VerifCaptured
-	hist := PublishOptions{HistorySize: 10, HistoryTTL: time.Minute, IdempotencyKey: idem}
-	out = append(out, k.capture("broker.publish.history", clusterSlots, func() { _, _ = k.broker.publish(sw, ch, []byte("{}"), hist) }))
-	out = append(out, k.capture("broker.publish.idempotent", clusterSlots, func() {
-		_, _ = k.broker.publish(sw, ch, []byte("{}"), PublishOptions{IdempotencyKey: idem})
-	}))
-	out = append(out, k.capture("broker.history", clusterSlots, func() { _, _, _ = k.broker.history(sw, ch, HistoryOptions{Filter: HistoryFilter{Limit: -1}}) }))
-	info := &ClientInfo{ClientID: "uid", UserID: "u"}
-	out = append(out, k.capture("presence.add", clusterSlots, func() { _ = k.presence.addPresence(k.shard, ch, "uid", info) }))
-	out = append(out, k.capture("presence.remove", clusterSlots, func() { _ = k.presence.removePresence(k.shard, ch, "uid", "u") }))
-	out = append(out, k.capture("presence.get", clusterSlots, func() { _, _ = k.presence.presence(k.shard, ch) }))
-	out = append(out, k.capture("presence.stats", clusterSlots, func() { _, _ = k.presence.presenceStats(k.shard, ch) }))
-	if e := k.mapb; e != nil {
-		out = append(out, k.capture("map.publish", clusterSlots, func() {
-			_, _ = e.Publish(ctx, ch, "key", MapPublishOptions{Data: []byte("{}"), IdempotencyKey: idem})
-		}))
-		out = append(out, k.capture("map.remove", clusterSlots, func() { _, _ = e.Remove(ctx, ch, "key", MapRemoveOptions{IdempotencyKey: idem}) }))
-		out = append(out, k.capture("map.read.state", clusterSlots, func() { _, _ = e.ReadState(ctx, ch, MapReadStateOptions{Limit: 10}) }))
-		out = append(out, k.capture("map.read.stream", clusterSlots, func() {
-			_, _ = e.ReadStream(ctx, ch, MapReadStreamOptions{Filter: StreamFilter{Limit: 10}})
-		}))
-		out = append(out, k.capture("map.cleanup.batchRemove", clusterSlots, func() {
-			chOpts, err := ResolveAndValidateMapChannelOptions(e.node.config.Map.GetMapChannelOptions, ch)
-			if err != nil {
-				panic(err)
-			}
-			// cleanupPartition(cleanupKey) -> cleanupChannel(.., cleanupKey, ..) -> batchRemoveExpired(.., cleanupKey, ..):
-			// the key is the one the worker scanned (taken by the harness from the real cleanupShard pass)
-			_ = e.batchRemoveExpired(ctx, k.shard, ch, cleanupScanKey, chOpts,
-				[]cleanupRemovalEntry{{key: "key", payload: []byte("x"), expireScore: "1"}})
-		}))
+// verifMapOpts is what the node's GetMapChannelOptions returns for every channel; Invoke sets it
+// according to the invocation's map mode before running a map broker operation.
+type verifMapOpts struct {
+	mu   sync.Mutex
+	opts MapChannelOptions
+}
+
+func (o *verifMapOpts) get(string) MapChannelOptions {
+	o.mu.Lock()
+	defer o.mu.Unlock()
+	return o.opts
+}
+
+func verifMapChannelOptions(mode string, ordered bool) (MapChannelOptions, error) {
+	var o MapChannelOptions
+	switch mode {
+	case "ephemeral":
+		o = MapChannelOptions{Mode: MapModeEphemeral, KeyTTL: time.Minute}
+	case "recoverable":
+		o = MapChannelOptions{Mode: MapModeRecoverable, KeyTTL: time.Minute, StreamSize: 10, StreamTTL: time.Minute}
+	case "persistent":
+		o = MapChannelOptions{Mode: MapModePersistent, StreamSize: 10, StreamTTL: time.Minute}
+	default:
+		return o, fmt.Errorf("unknown map mode %q", mode)
 	}
-	return out
+	o.ordered = ordered
+	return o, nil
+}
+
+// Invoke runs ONE real operation, selected by the invocation name of spec/RedisKeys
+// ("<engine>.<Operation>" or "<engine>.<Operation>:<flag>,<flag>,..."), against the recording client
+// and returns the commands it built. With clusterSlots the builders behave like those of rueidis'
+// cluster client (cross-slot KEYS panic inside rueidis). cleanupScanKey is the key the cleanup worker
+// scans for this channel's partition (see CleanupScanKeys). ok=false: the name is not executable here.
+//
+// flags: broker.Publish  history, delta, idem, version
+//        map.*           ephemeral | recoverable | persistent, keyed, ordered, idem, key (ReadState by key)
+func (k *VerifKeys) Invoke(name, ch, idem, cleanupScanKey string, clusterSlots bool) (VerifCaptured, bool) {
+	ctx := context.Background()
+	op, flagStr := name, ""
+	for i := 0; i < len(name); i++ {
+		if name[i] == ':' {
+			op, flagStr = name[:i], name[i+1:]
+			break
+		}
+	}
+	flags := map[string]bool{}
+	start := 0
+	for i := 0; i <= len(flagStr); i++ {
+		if i == len(flagStr) || flagStr[i] == ',' {
+			if i > start {
+				flags[flagStr[start:i]] = true
+			}
+			start = i + 1
+		}
+	}
+	idemKey := ""
+	if flags["idem"] {
+		idemKey = idem
+	}
+	sw := k.broker.shards[0]
+	info := &ClientInfo{ClientID: "uid", UserID: "u"}
+	var fn func()
+	switch op {
+	case "broker.Publish":
+		o := PublishOptions{IdempotencyKey: idemKey, UseDelta: flags["delta"]}
+		if flags["history"] {
+			o.HistorySize, o.HistoryTTL = 10, time.Minute
+		}
+		if flags["version"] {
+			o.Version, o.VersionEpoch = 3, "ve"
+		}
+		fn = func() { _, _ = k.broker.publish(sw, ch, []byte("{}"), o) }
+	case "broker.PublishJoin":
+		fn = func() { _ = k.broker.publishJoin(sw, ch, info) }
+	case "broker.PublishLeave":
+		fn = func() { _ = k.broker.publishLeave(sw, ch, info) }
+	case "broker.History":
+		fn = func() { _, _, _ = k.broker.history(sw, ch, HistoryOptions{Filter: HistoryFilter{Limit: -1}}) }
+	case "broker.RemoveHistory":
+		fn = func() { _ = k.broker.removeHistory(sw, ch) }
+	case "presence.Add":
+		fn = func() { _ = k.presence.addPresence(k.shard, ch, "uid", info) }
+	case "presence.Remove":
+		fn = func() { _ = k.presence.removePresence(k.shard, ch, "uid", "u") }
+	case "presence.Get":
+		fn = func() { _, _ = k.presence.presence(k.shard, ch) }
+	case "presence.Stats":
+		fn = func() { _, _ = k.presence.presenceStats(k.shard, ch) }
+	}
+	if fn == nil && len(op) > 4 && op[:4] == "map." {
+		e := k.mapb
+		if e == nil {
+			return VerifCaptured{}, false
+		}
+		mode := ""
+		for _, m := range []string{"ephemeral", "recoverable", "persistent"} {
+			if flags[m] {
+				mode = m
+			}
+		}
+		mo, err := verifMapChannelOptions(mode, flags["ordered"])
+		if err != nil {
+			return VerifCaptured{Op: name, Panic: err.Error()}, true
+		}
+		k.mapOpts.mu.Lock()
+		k.mapOpts.opts = mo
+		k.mapOpts.mu.Unlock()
+		key := ""
+		if flags["keyed"] {
+			key = "key"
+		}
+		switch op {
+		case "map.Publish":
+			fn = func() { _, _ = e.Publish(ctx, ch, key, MapPublishOptions{Data: []byte("{}"), IdempotencyKey: idemKey}) }
+		case "map.Remove":
+			fn = func() { _, _ = e.Remove(ctx, ch, "key", MapRemoveOptions{IdempotencyKey: idemKey}) }
+		case "map.ReadState":
+			ro := MapReadStateOptions{Limit: 10}
+			if flags["key"] {
+				ro.Key = "key"
+			}
+			fn = func() { _, _ = e.ReadState(ctx, ch, ro) }
+		case "map.ReadStream":
+			fn = func() { _, _ = e.ReadStream(ctx, ch, MapReadStreamOptions{Filter: StreamFilter{Limit: 10}}) }
+		case "map.Stats":
+			fn = func() { _, _ = e.Stats(ctx, ch) }
+		case "map.Clear":
+			fn = func() { _ = e.Clear(ctx, ch, MapClearOptions{}) }
+		case "map.cleanupFind":
+			fn = func() { _, _ = e.findExpiredKeys(ctx, k.shard, ch, time.Now().UnixMilli()) }
+		case "map.cleanupBatchRemove":
+			fn = func() {
+				chOpts, err := ResolveAndValidateMapChannelOptions(e.node.config.Map.GetMapChannelOptions, ch)
+				if err != nil {
+					panic(err)
+				}
+				// cleanupPartition(cleanupKey) -> cleanupChannel(.., cleanupKey, ..) -> batchRemoveExpired(.., cleanupKey, ..):
+				// the key is the one the worker scanned (taken by the harness from the real cleanupShard pass)
+				_ = e.batchRemoveExpired(ctx, k.shard, ch, cleanupScanKey, chOpts,
+					[]cleanupRemovalEntry{{key: "key", payload: []byte("x"), expireScore: "1"}})
+			}
+		}
+	}
+	if fn == nil {
+		return VerifCaptured{}, false
+	}
+	return k.capture(name, clusterSlots, fn), true
 }
 
 // CleanupScanKeys runs the real cleanup worker pass (cleanupShard) of the map broker against the
